@@ -94,6 +94,16 @@ def ctype(t):
 
 
 class Gen:
+    # feature flags (set by generate(); subclasses such as natgen.NatGen rely on these defaults)
+    ext = False
+    shadow = False
+    enumalias = False
+    strings = True
+    ordering = False
+    oddities = False
+    arrays = True
+    opaque = False
+
     def __init__(self, rng, name, features=None, size=1.0, prior=None, docs=True, native=False):
         self.r = rng
         self.name = name
